@@ -210,6 +210,8 @@ def install_populated(a1: bool, a2: bool, b1: bool, b2: bool, use_setter: bool) 
         w = Environment(m, id="W")
     elif kind == 'space':
         w = Env.SpaceWorld(m, 5, 4, 3)
+    elif kind == 'space_wrap':
+        w = Env.SpaceWorld(m, 5, 0, 0, wrap_env=True)
     else:
         w = _REAL[kind]
         w.agents.clear()
